@@ -1,6 +1,7 @@
 package main
 
 import (
+	"math"
 	"bytes"
 	"context"
 	"encoding/json"
@@ -75,6 +76,16 @@ func c15attr(r *gen.R, key string, depth int) (stdslog.Attr, gen.KV) {
 	case x == 11:
 		v := mk("str")
 		return stdslog.Any(key, valuer{stdslog.StringValue(v.Text)}), gen.KV{Key: key, Val: v}
+	case x == 12 && depth < 3 && r.Bool():
+		// a LogValuer (or a chain of two) that resolves to a GROUP - the example of the log/slog documentation
+		a, kv := c15attr(r, "in", 3)
+		b, kv2 := c15attr(r, "n", 3)
+		gv := stdslog.GroupValue(a, b)
+		var lv stdslog.LogValuer = valuer{gv}
+		if r.Bool() {
+			lv = valuer{stdslog.AnyValue(lv)}
+		}
+		return stdslog.Any(key, lv), gen.KV{Key: key, Val: gen.V{Kind: "group", Items: []gen.KV{kv, kv2}}}
 	case x == 12:
 		v := r.Slice("strs", gen.Options{Str: so, NoSpaceInSliceStrings: true})
 		return stdslog.Any(key, v.Go), gen.KV{Key: key, Val: v}
@@ -658,8 +669,8 @@ func c15levelsweep(c *Ctx) {
 		desc := map[string]any{"mode": mode, "exit_status": exit, "stderr": clip(se, 300)}
 		switch mode {
 		case "all":
-			if exit != 0 || res.Panicked != "" || len(res.Done) != 79 {
-				c.R.Violation(idx, "level-mapping", "C15/level-mapping/terminating", fmt.Sprintf("Entry.Log with a log/slog level other than the Fatal/Panic constants terminated the process: exit %d, panicked %q, last level tried %d, %d of 79 levels returned", exit, res.Panicked, res.At, len(res.Done)), desc)
+			if want := len(c15sweepLevels()); exit != 0 || res.Panicked != "" || len(res.Done) != want {
+				c.R.Violation(idx, "level-mapping", "C15/level-mapping/terminating", fmt.Sprintf("Entry.Log with a log/slog level other than the Fatal/Panic constants terminated the process: exit %d, panicked %q, last level tried %d, %d of %d levels returned", exit, res.Panicked, res.At, len(res.Done), want), desc)
 				return
 			}
 			for sl, nat := range stdNames {
@@ -687,6 +698,23 @@ func c15levelsweep(c *Ctx) {
 	})
 }
 
+// c15sweepLevels: every log/slog level value in -1100..1100 except the two explicit constants, plus far values - among
+// them the ones that equal LevelFatal / LevelPanic modulo 2^8, 2^16 and 2^32.
+func c15sweepLevels() []int {
+	var lvls []int
+	for l := -1100; l <= 1100; l++ {
+		if l != 16 && l != 17 {
+			lvls = append(lvls, l)
+		}
+	}
+	for _, k := range []int{1 << 16, 1 << 20, 1 << 31, 1 << 32, 1 << 40, 1 << 62} {
+		for _, d := range []int{16, 17, 0, -1} {
+			lvls = append(lvls, k+d, -k+d)
+		}
+	}
+	return append(lvls, math.MaxInt32, math.MinInt32, math.MaxInt64, math.MinInt64, math.MaxInt64-16)
+}
+
 func c15exec(c *Ctx, out string) {
 	mode := c.X("sweep", "all")
 	f, _ := os.OpenFile(out+".rec", os.O_CREATE|os.O_WRONLY|os.O_TRUNC, 0o644)
@@ -711,11 +739,7 @@ func c15exec(c *Ctx, out string) {
 		case "17":
 			lvls = []int{17}
 		default:
-			for l := -40; l <= 40; l++ {
-				if l != 16 && l != 17 {
-					lvls = append(lvls, l)
-				}
-			}
+			lvls = c15sweepLevels()
 		}
 		for _, l := range lvls {
 			at = l
